@@ -11,7 +11,7 @@ LEVEL = 'fault_enumeration'
 RULE = ('case = (stream bytes incl. sentinel tail, Content-Length below/equal/above the bytes available, buffer = '
         'max_memfile_size, read-fragmentation pattern = caps for successive read() calls, entry point '
         '_body_read | Request.body through WSGI read twice, content type none / octet-stream / JSON / urlencoded / multipart with a well-formed body whose closing delimiter '
-        'is followed by an epilogue, max_body_size unset or >= Content-Length incl. equal). Hypothesis-generated plus exhaustive enumeration of all '
+        'is followed by an epilogue, max_body_size unset, >= Content-Length incl. equal, or below it (413 expected, the read audit still applies); wsgi.input = fragmenting stream or a real seekable stream that stands behind the bytes of an earlier request). Hypothesis-generated plus exhaustive enumeration of all '
         'compositions (cap sequences) of every body length <= 9 for buffers 1..11. Oracle: body == first '
         'min(CL, available) stream bytes; no read(n) asks for more than CL minus bytes already delivered; no '
         'read(-1). Non-trivial = at least one short read happened, or CL != available, or the body spilled to a '
@@ -27,7 +27,7 @@ CTYPES = [None, None, 'application/octet-stream', 'multipart/form-data; boundary
 
 
 def _strategy():
-    def build(data, clmode, delta, buf, pattern, via, anycl, ctype, mp, epi, maxb):
+    def build(data, clmode, delta, buf, pattern, via, anycl, ctype, mp, epi, maxb, stream_kind):
         if mp and ctype and ctype.startswith('multipart/'):
             data = MP_BODY + epi + data[:delta % 7]          # a well-formed multipart body (closing delimiter + epilogue) followed by a few sentinel bytes
             if clmode == 'eq':
@@ -45,7 +45,11 @@ def _strategy():
             cl = anycl
         case = {'data': data, 'cl': cl, 'buf': buf, 'pattern': pattern, 'via': via if ctype is None else 'wsgi', 'ctype': ctype}
         if maxb is not None:
-            case['max_body'] = cl + maxb         # a configured limit the body does not exceed (equal to it when maxb == 0)
+            case['max_body'] = max(0, cl + maxb)         # >= 0: a limit the body does not exceed (equal when maxb == 0); < 0: the body is over the limit
+            if maxb < 0:
+                case['via'] = 'wsgi'
+        if stream_kind and case['via'] == 'wsgi':
+            case['stream'] = stream_kind
         return case
     data = st.one_of(st.binary(max_size=40), st.binary(min_size=30, max_size=220))
     return st.builds(
@@ -57,7 +61,8 @@ def _strategy():
         st.sampled_from(['direct', 'direct', 'wsgi']),
         st.integers(0, 400),
         st.sampled_from(CTYPES), st.booleans(), st.sampled_from([b'', b'\r\n', b'\r\nepilogue text', b'\r\n\r\nmore']),
-        st.sampled_from([None, None, None, 0, 0, 1, 1000]))
+        st.sampled_from([None, None, None, 0, 0, 1, 1000, -1, -7, -1000]),
+        st.sampled_from([None, None, None, 'bytesio_at_offset', 'bufferedreader_at_offset']))
 
 
 def _read_direct(case, stream):
@@ -91,6 +96,10 @@ def _read_wsgi(case, stream):
     r = call_app(app, env)
     if r.escaped is not None:
         raise CheckFailure(f'exception escaped: {fmt_exc(r.escaped)}')
+    if case.get('max_body') is not None and case['max_body'] < min(case['cl'], len(case['data'])):
+        if r.code != 413:
+            raise CheckFailure(f'body of {min(case["cl"], len(case["data"]))} bytes over max_body_size={case["max_body"]} answered {r.status!r}')
+        return None, False
     if r.code != 200:
         raise CheckFailure(f'status {r.status!r} for a plain Content-Length body; errors: {r.errors[-600:]}')
     if seen.get('b1') != seen.get('b2'):
@@ -100,9 +109,45 @@ def _read_wsgi(case, stream):
     return seen['b1'], seen['spilled']
 
 
+class OffsetStream:
+    """A real seekable stream (io.BytesIO / io.BufferedReader) that already stands behind earlier bytes of the connection
+    (the previous request); records the reads like FragStream."""
+    PREFIX = b'POST /previous HTTP/1.1\r\nContent-Length: 9\r\n\r\nprev-body'
+
+    def __init__(self, data, kind):
+        import io
+        raw = io.BytesIO(self.PREFIX + data)
+        self.f = raw if kind == 'bytesio_at_offset' else io.BufferedReader(raw)
+        self.f.seek(len(self.PREFIX))
+        self.base = len(self.PREFIX)
+        self.requests = []
+        self.neg_reads = 0
+        self.total = len(data)
+
+    def read(self, n=-1):
+        pos = self.f.tell() - self.base
+        if n is None or n < 0:
+            self.neg_reads += 1
+        out = self.f.read(n)
+        self.requests.append((n if (n is not None and n >= 0) else self.total - pos, pos, len(out)))
+        return out
+
+    def seek(self, *a):
+        return self.f.seek(*a)
+
+    def tell(self):
+        return self.f.tell()
+
+    def seekable(self):
+        return True
+
+    def readable(self):
+        return True
+
+
 def check_case(ctx, case):
     data, cl, buf = case['data'], case['cl'], case['buf']
-    stream = FragStream(data, case['pattern'])
+    stream = OffsetStream(data, case['stream']) if case.get('stream') else FragStream(data, case['pattern'])
     try:
         got, spilled = (_read_wsgi if case['via'] == 'wsgi' else _read_direct)(case, stream)
     except CheckFailure:
@@ -110,7 +155,9 @@ def check_case(ctx, case):
     except Exception as e:
         raise CheckFailure(f'reader raised {type(e).__name__}: {fmt_exc(e)}')
     expect = data[:min(cl, len(data))]
-    if got != expect:
+    if got is None:
+        ctx.count('over_max_body_size_413')          # refused: only the read audit below applies
+    elif got != expect:
         raise CheckFailure(f'body mismatch: CL={cl} available={len(data)} buf={buf} pattern={case["pattern"]}: '
                            f'got {len(got)} bytes {got[:40]!r}, expected {len(expect)} bytes {expect[:40]!r}')
     if stream.neg_reads:
@@ -118,6 +165,8 @@ def check_case(ctx, case):
     delivered = 0
     short = False
     for n, pos, k in stream.requests:
+        if pos < 0:
+            raise CheckFailure(f'the stream was repositioned before the start of this request body (read at offset {pos}): bytes of an earlier request were read')
         if n > cl - delivered:
             raise CheckFailure(f'read({n}) issued with only {cl - delivered} bytes owed (CL={cl}, delivered={delivered})')
         if k < n and pos + k < len(data):
@@ -142,6 +191,8 @@ def check_case(ctx, case):
         ctx.count('max_body_size_configured')
         if case['max_body'] == cl:
             ctx.count('content_length_equals_max_body_size')
+    if case.get('stream'):
+        ctx.count('seekable_stream_positioned_after_earlier_bytes')
     if short or spilled or cl != len(data):
         ctx.nontrivial(case, sample=case)
 
